@@ -274,8 +274,13 @@ retry_fetch_lv:
         // this border is first node, but the key does not exist here
 
         // skip callback. will called in findnext
-        // expception: if start=end, findnext does not call cb, so need cb here
-        if (range_is_one_point) {
+        // expception: findnext does not call cb when the end point is INCLUSIVE and this
+        // position equals the end tuple of this layer (e.g. start=end, or start and end
+        // continue below the same absent link slice), so need cb here
+        auto ekt = cmp_to_end == 0 ? ctx->get_end_tuple(0)
+                                   : (right_to_left ? key_tuple::min() : key_tuple::max());
+        if (range_is_one_point ||
+            (ctx->get_end_point() == scan_endpoint::INCLUSIVE && key_tup == ekt)) {
             if (bnv_cb(target_border->get_version_ptr(), v_at_fetch_lv)) { return status::WARN_ABORTED_BY_USER; }
         }
 
